@@ -84,6 +84,19 @@ def gen_rounds(seed, tier, run):
             out.append(f"insert {a} {lst(pos)} a1:99 n")
         out.append(f"delete {a} {lst([0, tot - 1])} n")
         out.append(f"trim_zeros {a}")
+    # append: along every axis with every pair of lengths on that axis (shorter, equal, longer blocks), and flat
+    for sh in shapes(3, 3):
+        if len(sh) < 1:
+            continue
+        for ax in range(len(sh)):
+            for ln in (1, 2, 3, 4, 7):
+                other = list(sh); other[ax] = ln
+                out.append(f"append {arr(sh)} {arr(other, base=500)} z{ax}")
+        out.append(f"append {arr(sh)} {arr([3], base=500)} n")
+        out.append(f"append {arr(sh)} {arr(sh, base=500)} n")
+    for sh, ax, ln in (([2, 2, 2, 2], 3, 5), ([2, 3, 2, 2], 2, 5), ([2, 2, 2, 3], 1, 4), ([3, 2, 2, 2], 0, 5)):
+        other = list(sh); other[ax] = ln
+        out.append(f"append {arr(sh)} {arr(other, base=500)} z{ax}")
     # long axes: deletes / repeats / inserts / trims on arrays with 17..100 entries along the axis
     for sh in ([17], [33], [64], [100], [2, 17], [17, 3], [2, 9, 2]):
         for ax in range(len(sh)):
